@@ -190,6 +190,27 @@ class _N(ast.NodeTransformer):
                 n.slice = ast.Slice(lower=nn(a[0]), upper=nn(a[1]), step=None)
             else:
                 n.slice = ast.Slice(lower=nn(a[0]), upper=nn(a[1]), step=nn(a[2]))
+        # (a, b, c)[1] -> b ;  (X if c else Y)[1] -> X[1] if c else Y[1] for tuple displays X, Y
+        if isinstance(n.ctx, ast.Load) and isinstance(n.slice, ast.Constant) and type(n.slice.value) is int:
+            k = n.slice.value
+
+            def pick(v_):
+                if isinstance(v_, ast.Tuple) and not any(isinstance(e, ast.Starred) for e in v_.elts) and -len(v_.elts) <= k < len(v_.elts):
+                    return v_.elts[k]
+                if isinstance(v_, ast.IfExp):
+                    a_, b_ = pick(v_.body), pick(v_.orelse)
+                    if a_ is not None and b_ is not None:
+                        return ast.copy_location(ast.IfExp(test=v_.test, body=a_, orelse=b_), v_)
+                return None
+            r = pick(n.value)
+            if r is not None:
+                return r
+        # [E(v) for v in range(N)][j]  ->  E(j)     (j a name or constant; the element at a valid position of a comprehension over range)
+        v0 = n.value
+        if isinstance(n.ctx, ast.Load) and isinstance(v0, ast.ListComp) and len(v0.generators) == 1 and not v0.generators[0].ifs and isinstance(v0.generators[0].target, ast.Name) \
+                and isinstance(v0.generators[0].iter, ast.Call) and isinstance(v0.generators[0].iter.func, ast.Name) and v0.generators[0].iter.func.id == "range" \
+                and len(v0.generators[0].iter.args) == 1 and isinstance(n.slice, (ast.Name, ast.Constant)) and not (isinstance(n.slice, ast.Constant) and (type(n.slice.value) is not int or n.slice.value < 0)):
+            return _subst_name(v0.elt, v0.generators[0].target.id, n.slice)
         # np.nonzero(m)[0] -> np.where(m)[0]
         v = n.value
         if isinstance(v, ast.Call) and isinstance(v.func, ast.Attribute) and _is_np(v.func.value) and v.func.attr == "nonzero" and len(v.args) == 1:
@@ -238,6 +259,39 @@ class _N(ast.NodeTransformer):
         self.generic_visit(n)
         return self._star(n, lambda e: ast.Tuple(elts=e, ctx=ast.Load()))
 
+    def visit_DictComp(self, n):
+        self.generic_visit(n)
+        # {k: f(v) for k, v in {"a": x, "b": y}.items()}  ->  {"a": f(x), "b": f(y)}   (also .keys() / .values() / a display of pairs)
+        if len(n.generators) == 1 and not n.generators[0].ifs and not n.generators[0].is_async:
+            g = n.generators[0]
+            items = None
+            it = g.iter
+            if isinstance(it, ast.Call) and isinstance(it.func, ast.Attribute) and it.func.attr in ("items", "keys", "values") and not it.args and isinstance(it.func.value, ast.Dict) \
+                    and all(k is not None for k in it.func.value.keys) and len(it.func.value.keys) <= 12:
+                d = it.func.value
+                items = [{"items": ast.Tuple(elts=[k, v], ctx=ast.Load()), "keys": k, "values": v}[it.func.attr] for k, v in zip(d.keys, d.values)]
+            elif isinstance(it, (ast.Tuple, ast.List)) and len(it.elts) <= 12 and not any(isinstance(e, ast.Starred) for e in it.elts):
+                items = list(it.elts)
+            if items is not None:
+                keys, vals = [], []
+                ok = True
+                for e in items:
+                    if isinstance(g.target, ast.Name):
+                        env = {g.target.id: e}
+                    elif isinstance(g.target, ast.Tuple) and isinstance(e, ast.Tuple) and len(e.elts) == len(g.target.elts) and all(isinstance(t, ast.Name) for t in g.target.elts):
+                        env = {t.id: x for t, x in zip(g.target.elts, e.elts)}
+                    else:
+                        ok = False
+                        break
+                    k_, v_ = n.key, n.value
+                    for nm, val in env.items():
+                        k_, v_ = _subst_name(k_, nm, val), _subst_name(v_, nm, val)
+                    keys.append(k_)
+                    vals.append(v_)
+                if ok:
+                    return ast.copy_location(ast.Dict(keys=keys, values=vals), n)
+        return n
+
     def visit_ListComp(self, n):
         self.generic_visit(n)
         # [v for v in IT]  ->  list(IT)
@@ -267,8 +321,20 @@ class _N(ast.NodeTransformer):
             v = n.value
             a = ast.copy_location(ast.Assign(targets=[copy.deepcopy(n.targets[0])], value=v.body), n)
             b = ast.copy_location(ast.Assign(targets=[copy.deepcopy(n.targets[0])], value=v.orelse), n)
-            return ast.copy_location(ast.If(test=v.test, body=[self.visit_Assign(a)] if isinstance(v.body, ast.IfExp) else [a],
-                                            orelse=[self.visit_Assign(b)] if isinstance(v.orelse, ast.IfExp) else [b]), n)
+            tname = n.targets[0].id
+
+            def branch(st, val):
+                # `x = x` keeps the value: nothing to do on that branch
+                if isinstance(val, ast.Name) and val.id == tname:
+                    return []
+                r = self.visit_Assign(st) if isinstance(val, ast.IfExp) else st
+                return r if isinstance(r, list) else [r]
+            body, orelse = branch(a, v.body), branch(b, v.orelse)
+            if not body and not orelse:
+                return ast.copy_location(ast.Expr(value=v.test), n)
+            if not body:
+                return ast.copy_location(ast.If(test=ast.copy_location(ast.UnaryOp(op=ast.Not(), operand=v.test), v.test), body=orelse, orelse=[]), n)
+            return ast.copy_location(ast.If(test=v.test, body=body, orelse=orelse), n)
         return n
 
     def visit_AnnAssign(self, n):
@@ -277,6 +343,60 @@ class _N(ast.NodeTransformer):
         if n.value is None:
             return ast.copy_location(ast.Pass(), n) if isinstance(n.target, ast.Name) else n
         return ast.copy_location(ast.Assign(targets=[n.target], value=n.value), n)
+
+    def visit_For(self, n):
+        self.generic_visit(n)
+        import copy
+        # for T in itertools.chain(A, B): BODY   ->   for T in A: BODY ; for T in B: BODY     (BODY without break; no else)
+        it = n.iter
+        if isinstance(it, ast.Call) and (_dotted(it.func) or "").split(".")[-1] == "chain" and (_dotted(it.func) or "") in ("chain", "itertools.chain") and len(it.args) >= 2 \
+                and not it.keywords and not any(isinstance(a, ast.Starred) for a in it.args) and not n.orelse and not _has_own_break(n.body):
+            out = []
+            for a in it.args:
+                part = ast.copy_location(ast.For(target=copy.deepcopy(n.target), iter=a, body=copy.deepcopy(n.body), orelse=[], type_comment=None), n)
+                r = self.visit_For(part)
+                out.extend(r if isinstance(r, list) else [r])
+            return out
+        # for (j, m) in enumerate([E(v) for v in IT]): BODY(m)   ->   for (j, v) in enumerate(IT): BODY(E(v))      (also without enumerate; generator or list)
+        wrap = None
+        src = it
+        if isinstance(it, ast.Call) and isinstance(it.func, ast.Name) and it.func.id == "enumerate" and len(it.args) >= 1 and isinstance(n.target, ast.Tuple) and len(n.target.elts) == 2:
+            wrap, src = it, it.args[0]
+            elem_t = n.target.elts[1]
+        else:
+            elem_t = n.target
+        if isinstance(src, (ast.ListComp, ast.GeneratorExp)) and len(src.generators) == 1 and not src.generators[0].ifs and not src.generators[0].is_async:
+            g = src.generators[0]
+            E = src.elt
+            pairs = None
+            if isinstance(elem_t, ast.Name):
+                pairs = [(elem_t.id, E)]
+            elif isinstance(elem_t, ast.Tuple) and isinstance(E, ast.Tuple) and len(E.elts) == len(elem_t.elts) and all(isinstance(t, ast.Name) for t in elem_t.elts):
+                pairs = [(t.id, e) for t, e in zip(elem_t.elts, E.elts)]
+            assigned = {x.id for b in n.body for x in ast.walk(b) if isinstance(x, ast.Name) and isinstance(x.ctx, (ast.Store, ast.Del))}
+            if pairs is not None and not ({p for p, _ in pairs} & assigned) and not any(isinstance(x, (ast.Lambda, ast.FunctionDef)) for b in n.body for x in ast.walk(b)):
+                _N._fuse = getattr(_N, "_fuse", 0) + 1
+                ren = {x.id: "__fv%d_%s" % (_N._fuse, x.id) for x in ast.walk(g.target) if isinstance(x, ast.Name)}
+
+                class R(ast.NodeTransformer):
+                    def visit_Name(self, x):
+                        if x.id in ren:
+                            return ast.copy_location(ast.Name(id=ren[x.id], ctx=x.ctx), x)
+                        return x
+                new_t = R().visit(copy.deepcopy(g.target))
+                body = copy.deepcopy(n.body)
+                for nm, e in pairs:
+                    e2 = R().visit(copy.deepcopy(e))
+                    body = [_subst_name(b, nm, e2) for b in body]
+                if wrap is not None:
+                    tgt = ast.Tuple(elts=[n.target.elts[0], new_t], ctx=ast.Store())
+                    itr = ast.copy_location(ast.Call(func=wrap.func, args=[g.iter] + list(wrap.args[1:]), keywords=wrap.keywords), wrap)
+                else:
+                    tgt, itr = new_t, g.iter
+                new = ast.copy_location(ast.For(target=tgt, iter=itr, body=body, orelse=n.orelse, type_comment=None), n)
+                ast.fix_missing_locations(new)
+                return new
+        return n
 
     def visit_With(self, n):
         self.generic_visit(n)
@@ -661,6 +781,33 @@ def normalize_loops(fn):
                     changed = True
                     k += 2
                     continue
+            # F = False; for ..: ... F = True; break ...; if not F: E    ->    for ..: ... break ... else: E
+            fl = _flag_to_else(stmts, k, fn)
+            if fl is not None:
+                stmts = fl
+                changed = True
+                continue
+            # x = []; x.extend(IT)   ->   x = list(IT)
+            if isinstance(s0, ast.Assign) and len(s0.targets) == 1 and isinstance(s0.targets[0], ast.Name) and isinstance(s0.value, ast.List) and not s0.value.elts \
+                    and isinstance(s1, ast.Expr) and isinstance(s1.value, ast.Call) and isinstance(s1.value.func, ast.Attribute) and s1.value.func.attr == "extend" \
+                    and isinstance(s1.value.func.value, ast.Name) and s1.value.func.value.id == s0.targets[0].id and len(s1.value.args) == 1 and not s1.value.keywords \
+                    and not any(isinstance(n, ast.Name) and n.id == s0.targets[0].id for n in ast.walk(s1.value.args[0])):
+                out.append(ast.copy_location(ast.Assign(targets=[s0.targets[0]], value=ast.copy_location(ast.Call(func=ast.Name(id="list", ctx=ast.Load()), args=[s1.value.args[0]], keywords=[]), s1)), s0))
+                changed = True
+                k += 2
+                continue
+            # running edges: L = [c0]; for ..: x = f(L[-1]); L.append(x)  +  for a, b in zip(L[:-1], L[1:]): BODY   ->   a = c0; for ..: b = f(a); BODY; a = b
+            pe = _prefix_edges(stmts, k, fn)
+            if pe is not None:
+                stmts = pe
+                changed = True
+                continue
+            # first-match loop over a literal table: for T in ((a1, b1), (a2, b2)): if C(T): S(T); break  [else: E]   ->   if C(1): S(1) elif C(2): S(2) [else: E]
+            fm = _first_match_loop(stmts, k, fn)
+            if fm is not None:
+                stmts = fm
+                changed = True
+                continue
             # x = []; for T in IT: [if c:] x.append(E)   ->   x = [E for T in IT if c]
             comp = _loop_as_comprehension(s0, s1, fn)
             if comp is not None:
@@ -684,6 +831,230 @@ def normalize_loops(fn):
     if changed:
         ast.fix_missing_locations(fn)
     return changed
+
+
+def _prefix_edges(stmts, k, fn):
+    if k + 2 >= len(stmts):
+        return None
+    s0, s1, s2 = stmts[k], stmts[k + 1], stmts[k + 2]
+    if not (isinstance(s0, ast.Assign) and len(s0.targets) == 1 and isinstance(s0.targets[0], ast.Name) and isinstance(s0.value, ast.List) and len(s0.value.elts) == 1
+            and isinstance(s1, ast.For) and not s1.orelse and isinstance(s2, ast.For) and not s2.orelse):
+        return None
+    L = s0.targets[0].id
+    last = s1.body[-1] if s1.body else None
+    if not (isinstance(last, ast.Expr) and isinstance(last.value, ast.Call) and isinstance(last.value.func, ast.Attribute) and last.value.func.attr == "append"
+            and isinstance(last.value.func.value, ast.Name) and last.value.func.value.id == L and len(last.value.args) == 1):
+        return None
+    X = last.value.args[0]
+    it = s2.iter
+    want = "zip(%s[:-1], %s[1:])" % (L, L)
+    if ast.unparse(it).replace(" ", "") != want.replace(" ", "") or not (isinstance(s2.target, ast.Tuple) and len(s2.target.elts) == 2 and all(isinstance(t, ast.Name) for t in s2.target.elts)):
+        return None
+    a, b = s2.target.elts[0].id, s2.target.elts[1].id
+    # uses of L: the initialisation, L[-1] reads and the append in s1, the two slices in s2's header - nothing else
+    n_l = sum(1 for n in ast.walk(fn) if isinstance(n, ast.Name) and n.id == L)
+    reads = [n for b_ in s1.body[:-1] for n in ast.walk(b_) if isinstance(n, ast.Subscript) and isinstance(n.value, ast.Name) and n.value.id == L
+             and isinstance(n.slice, ast.UnaryOp) and isinstance(n.slice.op, ast.USub) and isinstance(n.slice.operand, ast.Constant) and n.slice.operand.value == 1]
+    if n_l != 1 + len(reads) + 1 + 2:
+        return None
+    if _has_own_break(s1.body) or _has_own_break(s2.body) or any(isinstance(n, ast.Continue) for x in s1.body + s2.body for n in ast.walk(x)):
+        return None
+    assigned1 = {n.id for x in s1.body for n in ast.walk(x) if isinstance(n, ast.Name) and isinstance(n.ctx, ast.Store)} | {n.id for n in ast.walk(s1.target) if isinstance(n, ast.Name)}
+    used2 = {n.id for x in s2.body for n in ast.walk(x) if isinstance(n, ast.Name)}
+    xname = X.id if isinstance(X, ast.Name) else None
+    clash = (assigned1 - ({xname} if xname == b else set())) & (used2 | {a, b})
+    if clash:
+        return None
+    if not _only_rebound_elsewhere(fn, s2, {a, b} - assigned1):
+        pass
+    body1 = [_replace_edges_read(x, L, a) for x in s1.body[:-1]]
+    mid = [] if xname == b else [ast.copy_location(ast.Assign(targets=[ast.Name(id=b, ctx=ast.Store())], value=X), last)]
+    step = ast.copy_location(ast.Assign(targets=[ast.Name(id=a, ctx=ast.Store())], value=ast.Name(id=b, ctx=ast.Load())), last)
+    init = ast.copy_location(ast.Assign(targets=[ast.Name(id=a, ctx=ast.Store())], value=s0.value.elts[0]), s0)
+    loop = ast.copy_location(ast.For(target=s1.target, iter=s1.iter, body=body1 + mid + list(s2.body) + [step], orelse=[], type_comment=None), s1)
+    ast.fix_missing_locations(loop)
+    return stmts[:k] + [init, loop] + stmts[k + 3:]
+
+
+def _replace_edges_read(stmt, L, a):
+    class T(ast.NodeTransformer):
+        def visit_Subscript(self, n):
+            self.generic_visit(n)
+            if isinstance(n.value, ast.Name) and n.value.id == L and isinstance(n.ctx, ast.Load):
+                return ast.copy_location(ast.Name(id=a, ctx=ast.Load()), n)
+            return n
+    import copy
+    return T().visit(copy.deepcopy(stmt))
+
+
+def _first_match_loop(stmts, k, fn):
+    s0 = stmts[k]
+    loop = None
+    drop = None
+    if isinstance(s0, ast.For):
+        loop, table = s0, s0.iter
+    elif isinstance(s0, ast.Assign) and len(s0.targets) == 1 and isinstance(s0.targets[0], ast.Name) and isinstance(s0.value, (ast.List, ast.Tuple)) and k + 1 < len(stmts) \
+            and isinstance(stmts[k + 1], ast.For) and isinstance(stmts[k + 1].iter, ast.Name) and stmts[k + 1].iter.id == s0.targets[0].id \
+            and sum(1 for n in ast.walk(fn) if isinstance(n, ast.Name) and n.id == s0.targets[0].id) == 2:
+        loop, table, drop = stmts[k + 1], s0.value, s0
+    if loop is None or not isinstance(table, (ast.List, ast.Tuple)) or not (1 <= len(table.elts) <= 10) or any(isinstance(e, ast.Starred) for e in table.elts):
+        return None
+    if len(loop.body) != 1 or not isinstance(loop.body[0], ast.If) or loop.body[0].orelse:
+        return None
+    br = loop.body[0]
+    if not br.body or not isinstance(br.body[-1], ast.Break) or _has_own_break(br.body[:-1]):
+        return None
+    if any(isinstance(n, ast.Continue) for b in br.body for n in ast.walk(b)):
+        return None
+    tv = [x.id for x in ast.walk(loop.target) if isinstance(x, ast.Name)]
+    # the loop variables must not be used after the loop
+    inside = sum(1 for n in ast.walk(loop) if isinstance(n, ast.Name) and n.id in tv)
+    total = sum(1 for n in ast.walk(fn) if isinstance(n, ast.Name) and n.id in tv)
+    if inside != total:
+        return None
+    arms = []
+    for e in table.elts:
+        if isinstance(loop.target, ast.Name):
+            env = {loop.target.id: e}
+        elif isinstance(loop.target, ast.Tuple) and isinstance(e, ast.Tuple) and len(e.elts) == len(loop.target.elts) and all(isinstance(t, ast.Name) for t in loop.target.elts):
+            env = {t.id: x for t, x in zip(loop.target.elts, e.elts)}
+        else:
+            return None
+        test, body = br.test, br.body[:-1] or [ast.copy_location(ast.Pass(), br)]
+        for nm, val in env.items():
+            test = _subst_name(test, nm, val)
+            body = [_subst_name(b, nm, val) for b in body]
+        arms.append((test, body))
+    tail = loop.orelse
+    node = None
+    for test, body in reversed(arms):
+        node = ast.copy_location(ast.If(test=test, body=body, orelse=([node] if node is not None else tail)), loop)
+    ast.fix_missing_locations(node)
+    j = k + (2 if drop is not None else 1)
+    return stmts[:k] + [node] + stmts[j:]
+
+
+def _has_own_break(body):
+    for s_ in body:
+        if isinstance(s_, ast.Break):
+            return True
+        if isinstance(s_, (ast.For, ast.While, ast.FunctionDef, ast.AsyncFunctionDef, ast.ClassDef)):
+            continue
+        for f_ in ("body", "orelse", "finalbody"):
+            sub = getattr(s_, f_, None)
+            if isinstance(sub, list) and sub and isinstance(sub[0], ast.stmt) and _has_own_break(sub):
+                return True
+        if isinstance(s_, ast.Try) and any(_has_own_break(h.body) for h in s_.handlers):
+            return True
+    return False
+
+
+def _flag_to_else(stmts, k, fn):
+    """stmts[k] is `F = <bool const>`; a later loop in the same block sets F to the opposite constant immediately before each of its `break`s (and nowhere
+    else), the statement right after the loop is `if not F: E` (resp. `if F: E`), and F occurs nowhere else in the function: this is `for ... else: E`.
+    Returns the rewritten statement list or None."""
+    s0 = stmts[k]
+    if not (isinstance(s0, ast.Assign) and len(s0.targets) == 1 and isinstance(s0.targets[0], ast.Name) and isinstance(s0.value, ast.Constant) and isinstance(s0.value.value, bool)):
+        return None
+    F, init = s0.targets[0].id, s0.value.value
+    j = None
+    for i in range(k + 1, len(stmts)):
+        if isinstance(stmts[i], (ast.For, ast.While)):
+            j = i
+            break
+        if any(isinstance(n, ast.Name) and n.id == F for n in ast.walk(stmts[i])):
+            return None
+    if j is None or j + 1 >= len(stmts):
+        return None
+    loop, after = stmts[j], stmts[j + 1]
+    if loop.orelse or not (isinstance(after, ast.If) and not after.orelse):
+        return None
+    t = after.test
+    want_not = init is False
+    if want_not:
+        if not (isinstance(t, ast.UnaryOp) and isinstance(t.op, ast.Not) and isinstance(t.operand, ast.Name) and t.operand.id == F):
+            return None
+    elif not (isinstance(t, ast.Name) and t.id == F):
+        return None
+    # occurrences of F: the initialisation, the test, and stores inside the loop
+    sets = []
+
+    def scan(block, in_inner_loop):
+        for idx, s_ in enumerate(block):
+            if isinstance(s_, ast.Assign) and len(s_.targets) == 1 and isinstance(s_.targets[0], ast.Name) and s_.targets[0].id == F:
+                nxt = block[idx + 1] if idx + 1 < len(block) else None
+                if not (isinstance(s_.value, ast.Constant) and s_.value.value is (not init) and isinstance(nxt, ast.Break) and not in_inner_loop):
+                    return False
+                sets.append((block, s_))
+                continue
+            if isinstance(s_, ast.Break) and not in_inner_loop:
+                prev = block[idx - 1] if idx > 0 else None
+                if not (isinstance(prev, ast.Assign) and len(prev.targets) == 1 and isinstance(prev.targets[0], ast.Name) and prev.targets[0].id == F):
+                    return False
+                continue
+            if isinstance(s_, (ast.FunctionDef, ast.AsyncFunctionDef, ast.ClassDef)):
+                if any(isinstance(n, ast.Name) and n.id == F for n in ast.walk(s_)):
+                    return False
+                continue
+            inner = in_inner_loop or isinstance(s_, (ast.For, ast.While))
+            for f_ in ("body", "orelse", "finalbody"):
+                sub = getattr(s_, f_, None)
+                if isinstance(sub, list) and sub and isinstance(sub[0], ast.stmt):
+                    # the else-branch of an inner loop is not inside that loop
+                    if scan(sub, inner and f_ == "body" or (in_inner_loop)) is False:
+                        return False
+            if isinstance(s_, ast.Try):
+                for h in s_.handlers:
+                    if scan(h.body, in_inner_loop) is False:
+                        return False
+            # F in expressions of this statement (tests, values)?
+            for f_, v in ast.iter_fields(s_):
+                if f_ in ("body", "orelse", "finalbody", "handlers"):
+                    continue
+                vs = v if isinstance(v, list) else [v]
+                for x in vs:
+                    if isinstance(x, ast.AST) and any(isinstance(n, ast.Name) and n.id == F for n in ast.walk(x)):
+                        return False
+        return True
+    if scan(loop.body, False) is False or not sets:
+        return None
+    total = sum(1 for n in ast.walk(fn) if isinstance(n, ast.Name) and n.id == F)
+    if total != 2 + len(sets):
+        return None
+    for block, s_ in sets:
+        block.remove(s_)
+    loop.orelse = after.body
+    return stmts[:k] + stmts[k + 1:j + 1] + stmts[j + 2:]
+
+
+def _only_rebound_elsewhere(fn, loop, names):
+    """every occurrence of ``names`` outside ``loop`` lies in another for-loop / comprehension that binds the name itself (so it never observes the value
+    this loop left behind)"""
+    inside = {id(n) for n in ast.walk(loop)}
+
+    def rec(node, bound):
+        if id(node) in inside and node is loop:
+            return True
+        if isinstance(node, ast.Name) and node.id in names and id(node) not in inside:
+            if node.id not in bound:
+                return False
+        if isinstance(node, (ast.For, ast.AsyncFor)) and node is not loop:
+            b2 = bound | {x.id for x in ast.walk(node.target) if isinstance(x, ast.Name)}
+            if not rec(node.iter, bound):
+                return False
+            return all(rec(ch, b2) for ch in [node.target] + node.body) and all(rec(ch, bound) for ch in node.orelse)
+        if isinstance(node, (ast.ListComp, ast.SetComp, ast.GeneratorExp, ast.DictComp)):
+            b2 = set(bound)
+            for g in node.generators:
+                if not rec(g.iter, b2):
+                    return False
+                b2 |= {x.id for x in ast.walk(g.target) if isinstance(x, ast.Name)}
+                if not all(rec(c, b2) for c in g.ifs):
+                    return False
+            parts = [node.key, node.value] if isinstance(node, ast.DictComp) else [node.elt]
+            return all(rec(p_, b2) for p_ in parts)
+        return all(rec(ch, bound) for ch in ast.iter_child_nodes(node))
+    return rec(fn, set())
 
 
 def _loop_as_comprehension(s0, s1, fn):
@@ -711,9 +1082,7 @@ def _loop_as_comprehension(s0, s1, fn):
         return None
     if any(isinstance(n, (ast.Yield, ast.YieldFrom, ast.Await, ast.NamedExpr, ast.Lambda)) for r in reads for n in ast.walk(r)):
         return None
-    inside = sum(1 for n in ast.walk(s1) if isinstance(n, ast.Name) and n.id in tv)
-    total = sum(1 for n in ast.walk(fn) if isinstance(n, ast.Name) and n.id in tv)
-    if inside != total:
+    if not _only_rebound_elsewhere(fn, s1, tv):
         return None
     comp = ast.ListComp(elt=E, generators=[ast.comprehension(target=s1.target, iter=s1.iter, ifs=ifs, is_async=0)])
     return ast.copy_location(ast.Assign(targets=[s0.targets[0]], value=ast.copy_location(comp, s1)), s0)
